@@ -2,4 +2,4 @@ module github.com/golang/geo
 
 go 1.21.0
 
-require github.com/google/go-cmp v0.7.0 // indirect
+require github.com/google/go-cmp v0.7.0
